@@ -33,6 +33,21 @@ static BB<T> ctor_list_bool(const unsigned char* v, std::index_sequence<I...>)
     return BB<T>((v[I] != 0)...);
 }
 
+// insert<I>: one entry per compile-time index, selected by imm[0]
+template <class T, size_t N>
+static void f_insert_img(const xsv_args* a)
+{
+    T v;
+    std::memcpy(&v, a->in[1], sizeof v);
+    to_image<T>(a->out[0], xs::insert(from_image<T>(a->in[0]), v, xs::index<N>()));
+}
+template <class T, size_t... I>
+static const xsv_fn* insert_table(std::index_sequence<I...>)
+{
+    static const xsv_fn tab[] = { &f_insert_img<T, I>... };
+    return tab;
+}
+
 template <class T>
 static void fill_mem()
 {
@@ -68,6 +83,11 @@ static void fill_mem()
     reg<T>("ctor_list", [](const xsv_args* a) { T v[n]; std::memcpy(v, a->in[0], sizeof v); to_image<T>(a->out[0], ctor_list<T>(v, std::make_index_sequence<n>())); });
     reg<T>("ctor_list_bool", [](const xsv_args* a) { BB<T> m = ctor_list_bool<T>((const unsigned char*)a->in[0], std::make_index_sequence<n>()); unsigned char* o = (unsigned char*)a->out[0]; for (size_t i = 0; i < n; ++i) o[i] = m.get(i) ? 1 : 0; uint64_t mk = m.mask(); std::memcpy(o + 64, &mk, 8); });
     reg<T>("get", [](const xsv_args* a) { B<T> x = from_image<T>(a->in[0]); T v = x.get((size_t)a->imm[0]); std::memcpy(a->out[0], &v, sizeof v); });
+    if constexpr (xsv_cap<CAP_insert, T>::value)
+    {
+        static const xsv_fn* tab = insert_table<T>(std::make_index_sequence<n>());
+        reg<T>("insert", [](const xsv_args* a) { tab[(size_t)a->imm[0]](a); });
+    }
 }
 
 template <class T>
